@@ -99,6 +99,12 @@ class C11(CheckBase):
                         if o.alive and o.tok == t and o.handles and not o.private:
                             acts.append(("copy-private-token", i, j))
                             break
+            # ... and as copies that are SESSION objects of the copying session (they must die with that session and with no other)
+            if nlive < self.max_objs:
+                for j, o in enumerate(m.objs):
+                    if o.alive and o.tok == t and o.handles and (not o.private or m.login[t] == USER):
+                        acts.append(("copy-session", i, j))
+                        break
             acts.append(("find", i))
             for j, o in enumerate(m.objs):
                 if o.alive and o.tok == t and o.handles:
@@ -264,6 +270,21 @@ class C11(CheckBase):
                 ctx.count("copy_ok")
             else:
                 ctx.count("copy_refused")
+        elif k == "copy-session":
+            _, i, j = a
+            h, t, rw = m.sess[i]
+            src = m.objs[j]
+            label = b"obj-%04d" % m.nobj
+            r = p.CopyObject(h, sorted(src.handles)[0], [(C.CKA_LABEL, label), (C.CKA_TOKEN, False)])
+            if r["rv"] == 0:
+                self.new_handle(m, r["h"], "o", a)
+                o = Obj(label, t, False, src.private, h, origin="session-copy")
+                o.handles.add(r["h"])
+                m.objs.append(o)
+                m.nobj += 1
+                ctx.count("copy_session_ok")
+            else:
+                ctx.count("copy_session_refused")
         elif k == "find":
             h, t, rw = m.sess[a[1]]
             r = p.FindAll(h)
